@@ -429,6 +429,12 @@ class Engine:
                 self.model_vars[pname + ".pattern"] = ("seq", pt.meta["len"], pt.meta["fun"])
                 self.model_vars[pname + ".shading"] = ("cells", v.fields["shading"].fun, pt.meta["len"])
         start = len(self.obls)
+        for use in getattr(L["fn"], "uses_lemmas", ()) or ():
+            # a lemma may build on items of lemma chains (proved in their own unit), instantiated at its parameters
+            chain = dsl.LEMMAS[use[0]]["fn"](c, *use[1](*params.values()))
+            only = use[2] if len(use) > 2 else None
+            self.assume_chain([it for it in chain if only is None or it[0] in only], st, top_only=True)
+            self.used_contracts.add(f"lemma:{use[0]}")
         goal = L["fn"](c, *params.values())
         for f in c.side:
             st.assume(f)
